@@ -14,6 +14,7 @@ JOBS = [
     ("analyzer", "MCAnalyzer", "MCAnalyzer_bfs.cfg", dict(workers=8, xss="512m", cache_key="bfs", keep_tags={"CASE"}, coverage=False)),
     ("analyzer", "MCAnalyzer", "MCAnalyzer_std.cfg", dict(workers=8, xss="512m", cache_key="std", keep_tags={"CASE"}, coverage=False)),
     ("analyzer", "MCAnalyzer", "MCAnalyzer_switch.cfg", dict(workers=8, xss="512m", cache_key="switch", keep_tags={"CASE"}, coverage=False)),
+    ("analyzer", "MCAnalyzer", "MCAnalyzer_scope.cfg", dict(workers=8, xss="512m", cache_key="scope", keep_tags={"CASE"}, coverage=False)),
     ("includes", "Includes", "Includes.cfg", dict(workers=8, xss="512m", cache_key="inc", keep_tags={"CASE"}, xmx="16g")),
     ("includes", "Includes", "Includes2.cfg", dict(workers=8, xss="512m", cache_key="inc", keep_tags={"CASE"}, xmx="16g")),
     ("typerules", "TypeRules", "TypeRules.cfg", dict(workers=1, xss="512m", cache_key="tr", keep_tags={"DECL", "SIG", "LISTING", "ROW", "ARITH"})),
